@@ -11,4 +11,6 @@ import "github.com/trzsz/trzsz-go/trzsz"
 func init() {
 	c13VlDump = trzsz.VerifVlDump
 	c13VlRelease = trzsz.VerifVlRelease
+	c13VlSchedule = trzsz.VerifVlSchedule
+	c13VlSchedState = trzsz.VerifVlSchedState
 }
